@@ -122,6 +122,10 @@ def main():
           "hand-written Gallina model (coq/model) tied to /repo by the correspondence run of this check; "
           "tolerance 1e-9 relative inside Coq (base/Num.v qclose); Q-vs-R instance gap of the Num class",
           "harness: tools/props/%s.py (scenario generator, observation of the real objects, printing of Gallina terms)" % pid.lower()]
+    gens = [f for f in proof.get("files", []) if f.startswith("gen/")]
+    if gens:
+        tb.append("definitions translated from the CURRENT source text on this run (tie T, fail-closed translators tools/vlib/py2coq_la.py / py2coq_act.py): "
+                  + ", ".join("coq/" + g for g in gens) + "; proved equal to / used by the theorems of this property")
     tb += list(getattr(mod, "TRUSTED", []))
     ev = {
         "property_id": pid, "tier": tier, "seed": seed, "level": "proof",
